@@ -611,6 +611,12 @@ def run(model, tier="quick"):
     # deepcopy isolation of order-book cells (shared with C15)
     from .C15 import isolation_rule
     res.floor("fill_loop_call_sites", isolation_rule(model, res), 3)
+    # objects INSIDE cells (level lists) are shared by reference even under copy-on-write: no mutation may reach them
+    from ..rules.alias import cell_mutation_rule
+    mutating, _nf = cell_mutation_rule(model, res)
+    res.ob("R-INPUT", f"no statement or call mutates an object stored in a frame cell (functions that mutate a parameter: "
+                      f"{sorted(mutating)}; every call site hands them fresh objects)", "demeter/", ok=_nf == 0)
+    res.floor("functions_mutating_a_parameter", len(mutating), 1)
     res.assumptions = ["pandas >= 3 copy-on-write: objects obtained from a frame by loc/iloc/[] never write through to it",
                        "the time index of every frame is sorted (data)", "strategy code is out of scope (the Strategy object owns "
                        "references to data and prices by design)"]
